@@ -1111,6 +1111,37 @@ func TestCoreScripts(t *testing.T) {
 					}
 					a = Act{Name: "Deliver", E: w.Net[0].dst, A: 1}
 				}
+				if a.Name == "DropAll" { // every datagram in flight is lost
+					for len(w.Net) > 0 {
+						d := Act{Name: "Drop", E: w.Net[0].dst, A: 1}
+						obs, in := w.Step(d)
+						record(tr, w, d, obs, in)
+						sum.Steps++
+						sum.Acts["Drop"]++
+					}
+					continue
+				}
+				if a.Name == "Settle" { // the network heals, readers read, both ends flush when they ask to (C02 / C03)
+					next := [3]int{0, 0, 0}
+					do := func(a Act) Obs {
+						if !w.Enabled(a) {
+							return Obs{}
+						}
+						obs, in := w.Step(a)
+						if a.Name == "Recv" && obs.Ret == -1 {
+							return obs
+						}
+						record(tr, w, a, obs, in)
+						sum.Steps++
+						sum.Acts[a.Name]++
+						if obs.Panic != "" {
+							sum.Panics = append(sum.Panics, fmt.Sprintf("%s %+v: %s", s.Meta.Label, a, obs.Panic))
+						}
+						return obs
+					}
+					settlePhase(w, tr, do, a.A == 1, &next, sum)
+					continue
+				}
 				if a.Name == "RecvPeek" { // the raw-core idiom: a buffer of exactly PeekSize() bytes
 					ps := w.K[a.E].PeekSize()
 					if ps < 0 {
